@@ -30,11 +30,12 @@ Definition WRITE_DIRECT_SIZE := 4.
 Fixpoint rd_bytes (d : disk) (off : N) (n : nat) : bytes :=
   match n with O => [] | S k => d off :: rd_bytes d (off + 1) k end.
 
-Fixpoint wr_bytes (d : disk) (off : N) (b : bytes) : disk :=
-  match b with
-  | [] => d
-  | x :: r => wr_bytes (fun o => if o =? off then x else d o) (off + 1) r
-  end.
+(* one pwrite: the bytes [b] replace the device contents at [off ..] *)
+Definition wr_bytes (d : disk) (off : N) (b : bytes) : disk :=
+  let n := N.of_nat (length b) in
+  let hi := off + n in
+  fun o => if (off <=? o) && (o <? hi)
+           then nth (N.to_nat (o - off)) b 0 else d o.
 
 Definition empty_entry := mkE false false 0 0 [].
 Definition init (blocksize : N) (n : nat) (d : disk) : st :=
